@@ -56,7 +56,7 @@ func (t *atomTab) val(v pcommon.Value) string {
 	case pcommon.ValueTypeStr:
 		return fmt.Sprintf("IStr [%d]", t.atom("s", v.Str(), strconv.Quote(v.Str())))
 	case pcommon.ValueTypeInt:
-		return fmt.Sprintf("IInt %d%%Z", t.atom("i", strconv.FormatInt(v.Int(), 10), strconv.FormatInt(v.Int(), 10)))
+		return fmt.Sprintf("IInt (%d)%%Z", v.Int()) // rendered by the model itself (Otlp/Atoms.v fmt_int)
 	case pcommon.ValueTypeDouble:
 		r := strconv.FormatFloat(v.Double(), 'E', -1, 64)
 		return fmt.Sprintf("IDouble %d", t.atom("d", r, r))
@@ -96,8 +96,7 @@ func newAtomTab() *atomTab { return &atomTab{ids: map[string]int{}, render: map[
 func resourceIDCase(r pcommon.Resource, url string) (string, string) {
 	t := newAtomTab()
 	ents := t.entries(r.Attributes())
-	d := uint64(r.DroppedAttributesCount())
-	du := t.atom("u", strconv.FormatUint(d, 10), strconv.FormatUint(d, 10))
+	du := uint64(r.DroppedAttributesCount()) // rendered by the model itself (fmt_uint)
 	real := otlp.ResourceID(r, url)
 	return fmt.Sprintf(" ([%s], IdRes %s %d %s, %s)", strings.Join(t.rows, "; "), ents, du, bytesCoq(url), bytesCoq(real)), t.clash
 }
@@ -107,8 +106,7 @@ func scopeIDCase(s pcommon.InstrumentationScope, url string) (string, string) {
 	n := t.atom("s", s.Name(), strconv.Quote(s.Name()))
 	v := t.atom("s", s.Version(), strconv.Quote(s.Version()))
 	ents := t.entries(s.Attributes())
-	d := uint64(s.DroppedAttributesCount())
-	du := t.atom("u", strconv.FormatUint(d, 10), strconv.FormatUint(d, 10))
+	du := uint64(s.DroppedAttributesCount())
 	real := otlp.ScopeID(s, url)
 	return fmt.Sprintf(" ([%s], IdScope [%d] [%d] %s %d %s, %s)", strings.Join(t.rows, "; "), n, v, ents, du, bytesCoq(url), bytesCoq(real)), t.clash
 }
@@ -149,8 +147,9 @@ func idCases(data any, out *Output, prop string, lines *[]string) {
 	}
 }
 
-const idCheckCoq = `(* Otlp/Ids.v against the real ResourceID / ScopeID: the atom renderers (strconv.Quote, FormatInt, FormatFloat, hex,
-   FormatUint) are tabulated per case; strings, byte strings and keys are named by their atom id *)
+const idCheckCoq = `(* Otlp/Ids.v against the real ResourceID / ScopeID: strconv.Quote, FormatFloat and hex renderings are tabulated per case
+   (strings, byte strings and keys are named by their atom id); integers, dropped counts and booleans are rendered by the
+   model's own fmt_int / fmt_uint / fmt_bool (Otlp/Atoms.v), which are thereby compared with strconv *)
 Inductive idobj :=
 | IdRes (attrs : list (list N * val N)) (dropped : N) (url : list N)
 | IdScope (name ver : list N) (attrs : list (list N * val N)) (dropped : N) (url : list N).
@@ -158,13 +157,10 @@ Definition lk (tab : list (N * list N)) (i : N) : list N :=
   match find (fun p => N.eqb (fst p) i) tab with Some p => snd p | None => [] end.
 Definition id_render (tab : list (N * list N)) (o : idobj) : list N :=
   let q := fun s : list N => lk tab (hd 0 s) in
-  let fi := fun z : Z => lk tab (Z.to_N z) in
   let fd := fun d : N => lk tab d in
-  let fb := fun b : bool => if b then [116; 114; 117; 101] else [102; 97; 108; 115; 101] in
-  let fu := fun n : N => lk tab n in
   match o with
-  | IdRes a d u => resource_id N q fi fd fb q fu (fun m => m) a d u
-  | IdScope n v a d u => scope_id N q fi fd fb q fu (fun m => m) n v a d u
+  | IdRes a d u => resource_id N q fmt_int fd fmt_bool q fmt_uint (fun m => m) a d u
+  | IdScope n v a d u => scope_id N q fmt_int fd fmt_bool q fmt_uint (fun m => m) n v a d u
   end.
 Definition id_check (c : list (N * list N) * idobj * list N) : bool :=
   let '(tab, o, real) := c in list_eqb N.eqb (id_render tab o) real.
